@@ -4,7 +4,7 @@
        that end up wanted carry at least min(desired, existing) replication.
    proofs/C05_phys.v transfers both to the physical-device reading. *)
 From Coq Require Import List Arith Bool Lia Permutation.
-From AV Require Import model.C05_model proofs.C05_proofs.
+From AV Require Import model.C05_model model.C05_old_model proofs.C05_proofs.
 Import ListNotations.
 
 (* ---------- sums over slots that depend on mount and replica only ---------- *)
@@ -52,7 +52,7 @@ Qed.
 
 (* ---------- (1) the `safe` loop ---------- *)
 Lemma safe_count_spec dflt c d : forall l s0, s0 < d ->
-  (safe_count dflt c d l s0 <? d) = (s0 + ssum dflt c l <? d).
+  (safe_count_old dflt c d l s0 <? d) = (s0 + ssum dflt c l <? d).
 Proof.
   induction l as [|s r IH]; intros s0 H0; simpl.
   - unfold ssum; simpl. rewrite Nat.add_0_r. reflexivity.
@@ -70,9 +70,9 @@ Qed.
 Theorem flag_set_when_short dflt rank devrank mounts replicas classes desired c :
   In c classes -> 0 < lookup desired c ->
   ssum dflt c (map (mkslot replicas) mounts) < lookup desired c ->
-  under_flag dflt rank devrank mounts replicas classes desired = true.
+  under_flag_old dflt rank devrank mounts replicas classes desired = true.
 Proof.
-  intros Hc Hd Hs. unfold under_flag, run_classes.
+  intros Hc Hd Hs. unfold under_flag_old, run_classes_old.
   apply in_split in Hc. destruct Hc as (pre & post & ->). rewrite fold_left_app. simpl.
   pose proof (run_classes_evolves dflt rank devrank desired pre (map (mkslot replicas) mounts, [], false)) as Ev1.
   destruct (fold_left _ pre _) as [[sl1 u1] n1].
@@ -111,7 +111,7 @@ Fixpoint apart (l : list slot) : Prop :=
 Lemma try_slot_effect d a s a' s' dn :
   ~ In (mid (smnt s)) (wantMnt a) -> ~ In (mid (smnt s)) (protMnt a) ->
   (dev (smnt s) <> 0 -> ~ In (dev (smnt s)) (wantDev a)) ->
-  try_slot d a s = (a', s', dn) ->
+  try_slot_old d a s = (a', s', dn) ->
   incl (wantSrv a') (msrv (smnt s) :: wantSrv a) /\
   incl (wantMnt a') (mid (smnt s) :: wantMnt a) /\
   incl (protMnt a') (mid (smnt s) :: protMnt a) /\
@@ -124,7 +124,7 @@ Lemma try_slot_effect d a s a' s' dn :
   | None => replProt a' = replProt a
   end.
 Proof.
-  intros Hm Hp Hdv. unfold try_slot.
+  intros Hm Hp Hdv. unfold try_slot_old.
   assert (E0 : mem (mid (smnt s)) (wantMnt a) || negb (dev (smnt s) =? 0) && mem (dev (smnt s)) (wantDev a) = false).
   { apply orb_false_iff. split; [apply mem_false; exact Hm|].
     destruct (dev (smnt s) =? 0) eqn:E; simpl; [reflexivity|]. apply Nat.eqb_neq in E. apply mem_false. auto. }
@@ -164,17 +164,17 @@ Proof.
 Qed.
 
 Lemma pass_replProt dist d : forall l a dn a' dn' l',
-  pass dist d a dn l = (a', dn', l') -> replProt a <= replProt a'.
+  pass_old dist d a dn l = (a', dn', l') -> replProt a <= replProt a'.
 Proof.
   induction l as [|s r IH]; intros a dn a' dn' l' H; simpl in H.
   - injection H as <- _ _. lia.
   - destruct dn; [injection H as <- _ _; lia|].
     destruct (dist && mem (msrv (smnt s)) (wantSrv a)).
-    + destruct (pass dist d a false r) as [[a1 d1] r1] eqn:E. injection H as <- _ _. eapply IH; eauto.
-    + destruct (try_slot d a s) as [[a1 s1] d1] eqn:Et.
-      destruct (pass dist d a1 d1 r) as [[a2 d2] r2] eqn:E. injection H as <- _ _.
+    + destruct (pass_old dist d a false r) as [[a1 d1] r1] eqn:E. injection H as <- _ _. eapply IH; eauto.
+    + destruct (try_slot_old d a s) as [[a1 s1] d1] eqn:Et.
+      destruct (pass_old dist d a1 d1 r) as [[a2 d2] r2] eqn:E. injection H as <- _ _.
       assert (replProt a <= replProt a1).
-      { clear - Et. unfold try_slot in Et.
+      { clear - Et. unfold try_slot_old in Et.
         destruct (mem (mid (smnt s)) (wantMnt a) || negb (dev (smnt s) =? 0) && mem (dev (smnt s)) (wantDev a)).
         - injection Et as <- _ _. lia.
         - set (a0 := match srepl s with Some mt => if (replProt a <? d) && negb (mem (mid (smnt s)) (protMnt a)) then _ else a | None => a end) in Et.
@@ -188,7 +188,7 @@ Qed.
    every member replica met while replProt < desired gets protected *)
 Lemma members_pass dflt c d : forall l a a' dn' l',
   Forall (fun s => inclass dflt c (smnt s) = true) l -> apart l -> okacc a l ->
-  pass true d a false l = (a', dn', l') ->
+  pass_old true d a false l = (a', dn', l') ->
   Nat.min d (replProt a + ssum dflt c l) <= replProt a + fsum dflt c (unsafe a') l.
 Proof.
   induction l as [|s r IH]; intros a a' dn' l' Hmem Hap Hok H.
@@ -197,8 +197,8 @@ Proof.
     destruct Hap as [Hs_ap Hap'].
     destruct (Hok s (or_introl eq_refl)) as (O1 & O2 & O3 & O4).
     apply mem_false in O1. rewrite O1 in H. simpl in H.
-    destruct (try_slot d a s) as [[a1 s1] d1] eqn:Et.
-    destruct (pass true d a1 d1 r) as [[a2 d2] r2] eqn:E. injection H as <- _ _.
+    destruct (try_slot_old d a s) as [[a1 s1] d1] eqn:Et.
+    destruct (pass_old true d a1 d1 r) as [[a2 d2] r2] eqn:E. injection H as <- _ _.
     destruct (try_slot_effect _ _ _ _ _ _ O2 O3 O4 Et) as (I1 & I2 & I3 & I4 & I5 & Idn & Imono & Irepl).
     destruct (Nat.lt_ge_cases (replProt a) d) as [Hlt|Hge]; [|lia].
     rewrite ssum_cons, fsum_cons. unfold cval, fval, core; simpl. rewrite Hs. simpl.
@@ -229,22 +229,22 @@ Qed.
 
 (* pass over a concatenation *)
 Lemma pass_app dist d : forall l1 l2 a dn,
-  pass dist d a dn (l1 ++ l2) =
-  let '(a1, d1, l1') := pass dist d a dn l1 in
-  let '(a2, d2, l2') := pass dist d a1 d1 l2 in (a2, d2, l1' ++ l2').
+  pass_old dist d a dn (l1 ++ l2) =
+  let '(a1, d1, l1') := pass_old dist d a dn l1 in
+  let '(a2, d2, l2') := pass_old dist d a1 d1 l2 in (a2, d2, l1' ++ l2').
 Proof.
   induction l1 as [|s r IH]; intros l2 a dn; simpl.
-  - destruct (pass dist d a dn l2) as [[a2 d2] l2']. reflexivity.
+  - destruct (pass_old dist d a dn l2) as [[a2 d2] l2']. reflexivity.
   - destruct dn.
     + (* done: nothing changes any more *)
-      assert (X : forall l, pass dist d a true l = (a, true, l)) by (intros [|? ?]; reflexivity).
+      assert (X : forall l, pass_old dist d a true l = (a, true, l)) by (intros [|? ?]; reflexivity).
       rewrite X. reflexivity.
     + destruct (dist && mem (msrv (smnt s)) (wantSrv a)).
-      * rewrite IH. destruct (pass dist d a false r) as [[a1 d1] r1].
-        destruct (pass dist d a1 d1 l2) as [[a2 d2] l2']. reflexivity.
-      * destruct (try_slot d a s) as [[a0 s0] d0]. rewrite IH.
-        destruct (pass dist d a0 d0 r) as [[a1 d1] r1].
-        destruct (pass dist d a1 d1 l2) as [[a2 d2] l2']. reflexivity.
+      * rewrite IH. destruct (pass_old dist d a false r) as [[a1 d1] r1].
+        destruct (pass_old dist d a1 d1 l2) as [[a2 d2] l2']. reflexivity.
+      * destruct (try_slot_old d a s) as [[a0 s0] d0]. rewrite IH.
+        destruct (pass_old dist d a0 d0 r) as [[a1 d1] r1].
+        destruct (pass_old dist d a1 d1 l2) as [[a2 d2] l2']. reflexivity.
 Qed.
 
 (* ---------- the sort puts the members of the class first ---------- *)
@@ -326,7 +326,7 @@ Definition members_apart (dflt c : nat) (l : list slot) : Prop :=
 (* one class: what is unsafe afterwards covers min(desired, existing) of the class's replicas *)
 Lemma do_class_protects dflt rank devrank c d sl uns under sl' uns' under' :
   d <> 0 -> members_apart dflt c sl ->
-  do_class dflt rank devrank c d (sl, uns, under) = (sl', uns', under') ->
+  do_class_old dflt rank devrank c d (sl, uns, under) = (sl', uns', under') ->
   Nat.min d (ssum dflt c sl) <= fsum dflt c uns' sl.
 Proof.
   intros Hd Hap H.
@@ -338,8 +338,8 @@ Proof.
   set (pre := filter (fun s => inclass dflt c (smnt s)) srt) in *.
   set (post := filter (fun s => negb (inclass dflt c (smnt s))) srt) in *.
   rewrite Sp, pass_app in E1.
-  destruct (pass true d (acc0 uns) false pre) as [[ap dp] pre'] eqn:Ep.
-  destruct (pass true d ap dp post) as [[aq dq] post'] eqn:Eq'. injection E1 as <- <- <-.
+  destruct (pass_old true d (acc0 uns) false pre) as [[ap dp] pre'] eqn:Ep.
+  destruct (pass_old true d ap dp post) as [[aq dq] post'] eqn:Eq'. injection E1 as <- <- <-.
   assert (Hpre : Forall (fun s => inclass dflt c (smnt s) = true) pre).
   { rewrite Forall_forall. intros s Hs. apply filter_In in Hs. tauto. }
   assert (Hpost : Forall (fun s => inclass dflt c (smnt s) = false) post).
@@ -458,18 +458,18 @@ Theorem block_keeps_class dflt rank devrank minMtime mounts allmounts replicas c
   In c classes -> 0 < lookup desired c -> mounts_apart dflt c mounts ->
   Nat.min (lookup desired c) (have_m dflt c mounts replicas) <=
   kept_m dflt c mounts replicas
-         (trash_mids (fst (balance_block dflt rank devrank minMtime mounts allmounts replicas classes desired))).
+         (trash_mids (fst (balance_block_old dflt rank devrank minMtime mounts allmounts replicas classes desired))).
 Proof.
   intros Hc Hd Hap.
   set (d := lookup desired c) in *.
   set (sl0 := map (mkslot replicas) mounts).
-  set (out := fst (balance_block dflt rank devrank minMtime mounts allmounts replicas classes desired)).
+  set (out := fst (balance_block_old dflt rank devrank minMtime mounts allmounts replicas classes desired)).
   (* the slots at the end *)
   assert (Efs : exists sl uns under,
-             run_classes dflt rank devrank classes desired sl0 = (sl, uns, under) /\
+             run_classes_old dflt rank devrank classes desired sl0 = (sl, uns, under) /\
              Permutation (map core sl) (map core sl0) /\
              Nat.min d (ssum dflt c sl0) <= fsum dflt c uns sl).
-  { unfold run_classes.
+  { unfold run_classes_old.
     apply in_split in Hc. destruct Hc as (pre & post & ->). rewrite fold_left_app. simpl.
     pose proof (run_classes_evolves dflt rank devrank desired pre (sl0, [], false)) as Ev1.
     destruct (fold_left _ pre _) as [[sl1 u1] n1].
@@ -480,7 +480,7 @@ Proof.
       eapply perm_trans; [apply Permutation_map; exact P1|].
       unfold sl0. rewrite !map_map. simpl. rewrite map_id. reflexivity. }
     fold d.
-    destruct (do_class dflt rank devrank c d (sl1, u1, n1)) as [[sl2 u2] n2] eqn:E2.
+    destruct (do_class_old dflt rank devrank c d (sl1, u1, n1)) as [[sl2 u2] n2] eqn:E2.
     assert (Hd' : d <> 0) by lia.
     pose proof (do_class_protects dflt rank devrank c d sl1 u1 n1 sl2 u2 n2 Hd' Ma E2) as Pr.
     pose proof (do_class_evolves dflt rank devrank c d (sl1, u1, n1)) as Ev2. rewrite E2 in Ev2.
@@ -498,8 +498,8 @@ Proof.
   unfold kept_m. fold sl0.
   rewrite <- (list_sum_perm _ _ (Permutation_map (gval dflt c (trash_mids out)) Pc)).
   (* slot by slot: unsafe mtime => wanted => not in the trash list *)
-  assert (Hfs : final_slots dflt rank devrank mounts replicas classes desired = map (widen under uns) sl).
-  { unfold final_slots. fold sl0. rewrite Erun. reflexivity. }
+  assert (Hfs : final_slots_old dflt rank devrank mounts replicas classes desired = map (widen under uns) sl).
+  { unfold final_slots_old. fold sl0. rewrite Erun. reflexivity. }
   assert (Nd : NoDup (map (fun s => mid (smnt s)) sl)).
   { destruct Hap as (M1 & _ & _).
     assert (Permutation (map (fun s => mid (smnt s)) sl) (map mid mounts)).
@@ -512,7 +512,7 @@ Proof.
     destruct (mem t uns) eqn:Eu; [|lia].
     destruct (mem (mid (smnt s)) (trash_mids out)) eqn:Et; simpl; [|lia]. exfalso.
     apply mem_In in Et. apply in_trash_mids in Et. destruct Et as (t' & Ht').
-    unfold out, balance_block in Ht'. simpl in Ht'. rewrite Hfs in Ht'.
+    unfold out, balance_block_old in Ht'. simpl in Ht'. rewrite Hfs in Ht'.
     apply in_flat_map in Ht'. destruct Ht' as (s2 & Hs2 & He).
     apply emit_trash in He. destruct He as (Em & Er2 & Ew & _).
     apply in_map_iff in Hs2. destruct Hs2 as (s1 & <- & Hs1).
